@@ -1,5 +1,7 @@
 """Helper inlining: analyse a function as if its statement-level calls of small same-module helpers were
-written out in place ("extract method" must not change a verdict).
+written out in place ("extract method" / "move to a private module" must not change a verdict).  Helpers of
+other modules are written out as well: their nodes keep resolving names, types and call facts in the module they
+were written in (Program.origin).
 
 `inline(ctx, f, want)` returns a synthetic FuncInfo with the same module / qualname whose body is f's body
 with every statement of one of the forms
@@ -25,6 +27,12 @@ from typing import Callable
 from .model import FuncInfo
 
 MAX_DEPTH = 3
+# functions that rules refer to by name: never written out into their callers, wherever they are defined / re-exported
+ANCHORS = {
+    "aiomysensors.model.protocol.get_incoming_message_handler",
+    "aiomysensors.model.protocol.get_outgoing_message_handler",
+    "aiomysensors.model.protocol.get_protocol",
+}
 
 
 def _helper_of(ctx, f: FuncInfo, call: ast.Call) -> FuncInfo | None:
@@ -32,12 +40,25 @@ def _helper_of(ctx, f: FuncInfo, call: ast.Call) -> FuncInfo | None:
     h = None
     if isinstance(fn, ast.Attribute) and isinstance(fn.value, ast.Name) and fn.value.id in ("cls", "self") and f.cls is not None:
         h = f.cls.find_method(fn.attr)
+    elif f.cls is not None and f.name == "__init__" and isinstance(fn, ast.Attribute) and fn.attr == "__init__":
+        # the constructor chain: super().__init__(...) / Base.__init__(self, ...) of a repository base class
+        if isinstance(fn.value, ast.Call) and isinstance(fn.value.func, ast.Name) and fn.value.func.id == "super" and not fn.value.args:
+            h = f.cls.find_method("__init__", after=f.cls)
+        elif isinstance(fn.value, ast.Name) and call.args and isinstance(call.args[0], ast.Name) and call.args[0].id == "self":
+            d = ctx.prog.resolve_expr(f.module, fn.value)
+            if d is not None and d.kind == "class" and d.obj in f.cls.repo_mro()[1:]:
+                h = d.obj.find_method("__init__")
+        if h is not None and not h.is_abstract() and h is not f and not (h.node.args.vararg or h.node.args.kwarg) and not h.node.decorator_list:
+            return h  # a static call of one definition: overriding constructors in subclasses do not matter
+        return None
     elif isinstance(fn, ast.Name):
         d = ctx.prog.resolve_expr(f.module, fn)
         if d is not None and d.kind == "func":
             h = d.obj
-    if h is None or h.module is not f.module or h is f or h.is_abstract():
+    if h is None or h is f or h.is_abstract():
         return None
+    if h.module is not f.module and ctx.prog.aliases_of(h) & ANCHORS:
+        return None  # a function the rules name themselves (handler lookup, protocol selection) stays a call
     if h.cls is not None and any(h.name in k.methods for k in ctx.prog.subclasses(h.cls)):
         return None  # overridden somewhere: the call is dynamic dispatch, not a fixed body
     if h.node.decorator_list and not all(ast.unparse(d) in ("classmethod", "staticmethod") for d in h.node.decorator_list):
@@ -140,6 +161,8 @@ def _call_in(st: ast.stmt):
         v, form = st.value, "expr"
     elif isinstance(st, ast.Assign) and len(st.targets) == 1 and (isinstance(st.targets[0], ast.Name) or (isinstance(st.targets[0], ast.Tuple) and all(isinstance(x, ast.Name) for x in st.targets[0].elts))):
         v, form, tgt = st.value, "assign", st.targets[0]
+    elif isinstance(st, ast.AnnAssign) and st.value is not None and isinstance(st.target, ast.Name):
+        v, form, tgt = st.value, "assign", st.target  # `x: T = helper(...)`: the annotation does nothing at run time
     elif isinstance(st, ast.Return) and st.value is not None:
         v, form = st.value, "return"
     if form == "expr" and isinstance(v, ast.Yield) and v.value is not None:
@@ -174,10 +197,12 @@ def inline(ctx, f: FuncInfo, want: Callable[[FuncInfo], bool] | None = None) -> 
     key = (f, want)
     if key in cache:
         return cache[key]
-    want = want or (lambda h: h.name.startswith("_") and not h.name.startswith("__"))
+    # private helpers: a private name, or any function of a private module of the package (`_util.py`)
+    want = want or (lambda h: (h.name.startswith("_") and not h.name.startswith("__")) or (h.cls is None and h.module.name.rsplit(".", 1)[-1].startswith("_") and not h.module.name.endswith("__init__") and not h.name.startswith("__")))
     parents = ctx.prog.parents
     changed = [False]
     inlined: list[str] = []
+    inlined_funcs: list[FuncInfo] = []
     caller_names = set(f.params) | _names_bound(f.node)
 
     def expand(st: ast.stmt, depth: int, active: tuple) -> list[ast.stmt] | None:
@@ -186,14 +211,18 @@ def inline(ctx, f: FuncInfo, want: Callable[[FuncInfo], bool] | None = None) -> 
             return None
         form, call, tgt = hit
         h = _helper_of(ctx, f, call)
-        if h is None or not want(h) or h in active:
+        ctor_chain = h is not None and h.name == "__init__" and f.name == "__init__" and isinstance(call.func, ast.Attribute) and call.func.attr == "__init__"
+        if h is None or not (want(h) or ctor_chain) or h in active:
             return None
         if h.is_async != isinstance(parents.get(call), ast.Await):
             return None
         params = [p for p in h.positional_params if not (p in ("self", "cls") and h.cls is not None and not h.is_staticmethod())]
-        if any(isinstance(a, ast.Starred) for a in call.args) or len(call.args) > len(params):
+        call_args = list(call.args)
+        if ctor_chain and isinstance(call.func.value, ast.Name) and call_args:
+            call_args = call_args[1:]  # Base.__init__(self, ...): the explicit receiver
+        if any(isinstance(a, ast.Starred) for a in call_args) or len(call_args) > len(params):
             return None
-        amap: dict[str, ast.expr] = dict(zip(params, call.args))
+        amap: dict[str, ast.expr] = dict(zip(params, call_args))
         for kw in call.keywords:
             if kw.arg is None or kw.arg not in h.params:
                 return None
@@ -261,12 +290,92 @@ def inline(ctx, f: FuncInfo, want: Callable[[FuncInfo], bool] | None = None) -> 
             body = [_Ren().visit(copy.deepcopy(b)) for b in body]
             for b in body:
                 for par in ast.walk(b):
+                    ctx.prog.node_module[par] = h.module  # copies resolve names / types where the helper was written
                     for ch in ast.iter_child_nodes(par):
                         parents[ch] = par
             amap = {ren.get(p, p): a for p, a in amap.items()}
             rets = [n for s_ in body for n in ast.walk(s_) if isinstance(n, ast.Return)]
             final_ret = body[-1] if body and isinstance(body[-1], ast.Return) else None
             h_locals = {ren.get(n, n) for n in h_locals}
+        # `setattr(obj, name, v)` / `getattr(obj, name)` with `name` a parameter bound to a string literal at this call:
+        # the attribute access written out (a copy of the helper's statements; positions are kept)
+        const_names = {p: a.value for p, a in amap.items() if isinstance(a, ast.Constant) and isinstance(a.value, str) and a.value.isidentifier()}
+        # `if flag:` with `flag` a parameter bound to True / False / None at this call: only the branch that runs
+        rebound0 = {n.id for b in body for n in ast.walk(b) if isinstance(n, ast.Name) and isinstance(n.ctx, ast.Store)}
+        const_flags = {p: bool(a.value) for p, a in amap.items() if isinstance(a, ast.Constant) and (isinstance(a.value, bool) or a.value is None) and p not in rebound0}
+
+        def _flag_of(t):
+            if isinstance(t, ast.Name) and t.id in const_flags:
+                return const_flags[t.id]
+            if isinstance(t, ast.UnaryOp) and isinstance(t.op, ast.Not) and isinstance(t.operand, ast.Name) and t.operand.id in const_flags:
+                return not const_flags[t.operand.id]
+            return None
+
+        if const_flags and any(isinstance(n, ast.If) and _flag_of(n.test) is not None for b in body for n in ast.walk(b)):
+
+            class _Flag(ast.NodeTransformer):
+                def visit_If(self, n):
+                    self.generic_visit(n)
+                    v = _flag_of(n.test)
+                    if v is None:
+                        return n
+                    taken = n.body if v else n.orelse
+                    return taken or ast.copy_location(ast.Pass(), n)
+
+                def visit_FunctionDef(self, n):
+                    return n
+
+                visit_AsyncFunctionDef = visit_FunctionDef
+                visit_Lambda = visit_FunctionDef
+
+            body2_ = []
+            for b in body:
+                r_ = _Flag().visit(copy.deepcopy(b))
+                body2_ += r_ if isinstance(r_, list) else [r_]
+            body = body2_
+            for b in body:
+                ast.fix_missing_locations(b)
+                for par in ast.walk(b):
+                    if not hasattr(par, "_mod"):
+                        par._mod = h.module  # type: ignore[attr-defined]
+                    for ch in ast.iter_child_nodes(par):
+                        parents[ch] = par
+            rets = [n for s_ in body for n in ast.walk(s_) if isinstance(n, ast.Return)]
+            final_ret = body[-1] if body and isinstance(body[-1], ast.Return) else None
+        if const_names and any(isinstance(n, ast.Call) and isinstance(n.func, ast.Name) and n.func.id in ("setattr", "getattr") and len(n.args) >= 2 and isinstance(n.args[1], ast.Name) and n.args[1].id in const_names for b in body for n in ast.walk(b)):
+            rebound = {n.id for b in body for n in ast.walk(b) if isinstance(n, ast.Name) and isinstance(n.ctx, ast.Store)}
+
+            class _Attr(ast.NodeTransformer):
+                def visit_Expr(self, n):
+                    self.generic_visit(n)
+                    c = n.value
+                    if isinstance(c, ast.Call) and isinstance(c.func, ast.Name) and c.func.id == "setattr" and len(c.args) == 3 and not c.keywords and isinstance(c.args[1], ast.Name) and c.args[1].id in const_names and c.args[1].id not in rebound:
+                        tgt_ = ast.copy_location(ast.Attribute(value=c.args[0], attr=const_names[c.args[1].id], ctx=ast.Store()), c)
+                        return ast.copy_location(ast.Assign(targets=[tgt_], value=c.args[2]), n)
+                    return n
+
+                def visit_Call(self, n):
+                    self.generic_visit(n)
+                    if isinstance(n.func, ast.Name) and n.func.id == "getattr" and len(n.args) == 2 and not n.keywords and isinstance(n.args[1], ast.Name) and n.args[1].id in const_names and n.args[1].id not in rebound:
+                        return ast.copy_location(ast.Attribute(value=n.args[0], attr=const_names[n.args[1].id], ctx=ast.Load()), n)
+                    return n
+
+                def visit_FunctionDef(self, n):
+                    return n
+
+                visit_AsyncFunctionDef = visit_FunctionDef
+                visit_Lambda = visit_FunctionDef
+
+            body = [_Attr().visit(copy.deepcopy(b)) for b in body]
+            for b in body:
+                ast.fix_missing_locations(b)
+                for par in ast.walk(b):
+                    if not hasattr(par, "_mod"):
+                        par._mod = h.module  # type: ignore[attr-defined]
+                    for ch in ast.iter_child_nodes(par):
+                        parents[ch] = par
+            rets = [n for s_ in body for n in ast.walk(s_) if isinstance(n, ast.Return)]
+            final_ret = body[-1] if body and isinstance(body[-1], ast.Return) else None
         pre: list[ast.stmt] = []
         for p, a in amap.items():
             if isinstance(a, ast.Name) and a.id == p:
@@ -280,7 +389,7 @@ def inline(ctx, f: FuncInfo, want: Callable[[FuncInfo], bool] | None = None) -> 
         tgt_names = set() if tgt is None else {tgt.id} if isinstance(tgt, ast.Name) else {x.id for x in tgt.elts}
         if h_locals & (caller_names - tgt_names):
             return None
-        out = list(pre)
+        out = rebuild(pre, depth + 1, active + (h,))  # a helper call in argument position: `outer(await inner(x))`
         if tail_mode:
             out += rebuild(_replace_returns(body, tgt, parents, st), depth + 1, active + (h,))
         else:
@@ -315,6 +424,7 @@ def inline(ctx, f: FuncInfo, want: Callable[[FuncInfo], bool] | None = None) -> 
                 parents[e2] = parents[st]
             out.append(e2)
         inlined.append(h.qualname)
+        inlined_funcs.append(h)
         return out
 
     def rebuild(stmts: list, depth: int, active: tuple) -> list:
@@ -386,6 +496,7 @@ def inline(ctx, f: FuncInfo, want: Callable[[FuncInfo], bool] | None = None) -> 
     node2.body = body2
     f2 = FuncInfo(f.module, f.name, f.qualname, node2, f.cls, f.parent, dict(f.nested))
     f2.inlined = sorted(set(inlined))  # type: ignore[attr-defined]
+    f2.inlined_funcs = list(dict.fromkeys(inlined_funcs))  # type: ignore[attr-defined]
     f2.original = f  # type: ignore[attr-defined]
     cache[key] = f2
     return f2
